@@ -78,7 +78,7 @@ let parse_op (op : ostring) : eop =
     (match split ':' head with
      | ["tr"; fid; start; seed] -> OTrigger (n_of_int (ios fid), zi (ios start), zi (ios seed), plan)
      | ["cb"; fid; status] -> OCallback (n_of_int (ios fid), zi (ios status), plan)
-     | ["ct"; run; o] -> OCtl (n_of_int (ios run), ctlop_of (ios o), false, plan)
+     | ["ct"; run; o] | ["ctr"; run; o] -> OCtl (n_of_int (ios run), ctlop_of (ios o), false, plan)
      | ["ui"; run; o] -> OCtl (n_of_int (ios run), ctlop_of (ios o), true, plan)
      | ["adv"; d] -> OAdvance (zi (ios d))
      | ["st"; pu] -> (match split '/' pu with [i; u] -> OStep (zi (ios i), unit_of u, plan) | _ -> failwith "st")
